@@ -96,7 +96,7 @@ func c13RealBinaries(c *Ctx) {
 			}
 			built++
 			for run := 0; run < 3; run++ {
-				if c13RealOne(c, bin, filepath.Base(cc)+" "+strings.Join(mode, " ")) {
+				if c13RealOne(c, bin, filepath.Base(cc)+" "+strings.Join(mode, " "), run == 0) {
 					ran++
 				}
 			}
@@ -107,7 +107,66 @@ func c13RealBinaries(c *Ctx) {
 	c.Extra["real_binaries"] = map[string]interface{}{"compilers": ccs, "built": built, "runs": ran, "build_failures": skipped, "notes": notes}
 }
 
-func c13RealOne(c *Ctx, bin, desc string) bool {
+// c13RealSymbolize: a conversation with the REAL symbolizer tools through the public API
+// (Binutils.Open + SourceLine on one object): main, an address the tools know nothing about (PLT),
+// hot, main, hot -- once with the default tools (llvm-symbolizer when installed) and once with
+// GNU addr2line + nm only. The function reported for main / hot must be main / hot at every
+// position of the conversation.
+func c13RealSymbolize(c *Ctx, bin, desc string, ml c13MapsLine, syms map[string]uint64, unknown uint64) {
+	type q struct {
+		addr uint64
+		want string
+	}
+	qs := []q{{syms["main"], "main"}}
+	if unknown != 0 {
+		qs = append(qs, q{unknown, ""})
+	}
+	qs = append(qs, q{syms["hot"], "hot"}, q{syms["main"], "main"}, q{syms["hot"], "hot"})
+	configs := map[string]string{"default": ""}
+	if a, err := exec.LookPath("addr2line"); err == nil {
+		if n, err := exec.LookPath("nm"); err == nil {
+			configs["addr2line"] = "addr2line:" + filepath.Dir(a) + ",nm:" + filepath.Dir(n)
+		}
+	}
+	for _, name := range []string{"default", "addr2line"} {
+		cfg, ok := configs[name]
+		if !ok {
+			continue
+		}
+		bu := &binutils.Binutils{}
+		if cfg != "" {
+			// fileAddr2Line.init starts "llvm-symbolizer" from PATH even when SetTools did not find it:
+			// hide PATH for the duration of this conversation so that GNU addr2line + nm are used
+			oldPath := os.Getenv("PATH")
+			os.Setenv("PATH", "/nonexistent-c13")
+			defer os.Setenv("PATH", oldPath)
+			bu.SetTools(cfg)
+		}
+		var in, obs []Term
+		of, err := bu.Open(bin, ml.start, ml.limit, ml.offset, "")
+		if err != nil {
+			continue
+		}
+		for _, x := range qs {
+			got := ""
+			fr, err := of.SourceLine(x.addr)
+			if err != nil {
+				got = "error: " + err.Error()
+			} else if len(fr) > 0 {
+				got = fr[len(fr)-1].Func
+			}
+			if x.want == "" {
+				got = "" // whatever the tools say about an address without symbol
+			}
+			in = append(in, L(ZU(x.addr), S(x.want)))
+			obs = append(obs, S(got))
+		}
+		of.Close()
+		c.Case("real-symbolize", L(S("realsym"), S(name+": "+desc), L(in...)), L(obs...), true, "op:realsym", "tools:"+name)
+	}
+}
+
+func c13RealOne(c *Ctx, bin, desc string, symbolize bool) bool {
 	cmd := exec.Command(bin)
 	cmd.Env = []string{"LC_ALL=C"}
 	out, err := cmd.Output()
@@ -167,6 +226,21 @@ func c13RealOne(c *Ctx, bin, desc string) bool {
 	bias := syms["main"] - link["main"]
 	if syms["hot"]-link["hot"] != bias || syms["data_sym"]-link["data_sym"] != bias || int64(bias) < 0 {
 		return false
+	}
+	if symbolize {
+		var unknown uint64
+		if plt := ef.Section(".plt"); plt != nil && plt.Size >= 16 {
+			unknown = bias + plt.Addr + 8
+		}
+		for _, ml := range lines {
+			if syms["main"] >= ml.start && syms["main"] < ml.limit && syms["hot"] >= ml.start && syms["hot"] < ml.limit {
+				if unknown < ml.start || unknown >= ml.limit {
+					unknown = 0
+				}
+				c13RealSymbolize(c, bin, desc, ml, syms, unknown)
+				break
+			}
+		}
 	}
 	bu := &binutils.Binutils{}
 	for _, ml := range lines {
